@@ -126,8 +126,15 @@ func c12World(t *testing.T, p c12Params) rt.Result {
 			nProbe++
 			return len(rc.Msgs()) > 0, rc
 		}
-		dismiss := func(rc *hz.RConn) { // get rid of a served probe without damping
-			rc.SendNotification(6, 0, nil)
+		dismiss := func(rc *hz.RConn) { // get rid of a served probe without damping: Cease or a TCP failure
+			switch r.IntN(3) {
+			case 0:
+				rc.SendNotification(6, 0, nil)
+			case 1:
+				rc.Close()
+			default:
+				rc.Reset()
+			}
 			w.Settle()
 		}
 
@@ -260,7 +267,18 @@ func c12World(t *testing.T, p c12Params) rt.Result {
 				}
 				_, T = rc.EOF()
 			}
+			// a new inbound connection at the very instant of the protocol error: served or
+			// not, it is gone once the peer is held down
+			var racer *hz.RConn
+			if st.Src != "hold" && r.IntN(3) == 0 {
+				racer = w.Connect(ps.Addr)
+			}
 			w.Settle()
+			if racer != nil {
+				if eof, _ := racer.EOF(); !eof {
+					w.Violate("%s an inbound connection that arrived at the instant of the protocol error is still open after it (the peer is held down; the connection saw [%s])", desc, typesOf(racer.Msgs()))
+				}
+			}
 			nDamp++
 			hist = append(hist, T)
 			lastErr = T
